@@ -372,12 +372,14 @@ fn parse_check_line(mut line: &str) -> anyhow::Result<ParsedCheckLine> {
     // from the --tag flag.
     let hash_hex;
     let file_str;
-    if let Some((left, right)) = split_untagged_check_line(line_after_slash) {
-        hash_hex = left;
-        file_str = right;
-    } else if let Some((left, right)) = split_tagged_check_line(line_after_slash) {
+    // Try the tagged form first: an untagged line starts with hex digits, never with "BLAKE3 (",
+    // but a tagged line whose path contains "  " would also split as an untagged one.
+    if let Some((left, right)) = split_tagged_check_line(line_after_slash) {
         file_str = left;
         hash_hex = right;
+    } else if let Some((left, right)) = split_untagged_check_line(line_after_slash) {
+        hash_hex = left;
+        file_str = right;
     } else {
         bail!("Invalid check line format");
     }
